@@ -915,8 +915,9 @@ fn cli_dispatch(env: &mut Env, rng: &mut Rng) {
     for kind in kinds {
         for sem in crate::refsem::ALL_SEMS {
             let problem = format!("{}-{}", kind.name(), sem.name());
-            let a = rng.below(abs.n);
-            for enc in [None, Some("aux_var"), Some("exp"), Some("hybrid")] {
+            let a0 = rng.below(abs.n);
+            let queried: Vec<usize> = if env.prop == Prop::C04 && env.focus.is_none() { (0..abs.n).collect() } else { vec![a0] };
+            for (a, enc) in queried.iter().flat_map(|a| [None, Some("aux_var"), Some("exp"), Some("hybrid")].into_iter().map(move |e| (*a, e))) {
                 if enc == Some("exp") && cost > 2000 {
                     continue;
                 }
@@ -1195,8 +1196,13 @@ pub fn run(ctx: &mut Ctx, prop: Prop) {
             ctx.case_begin(&desc);
             let mut rng = Rng::from_path(&[ctx.seed, crate::cases::fam_hash(family), i, 0xabc]);
             let t0 = std::time::Instant::now();
+            // (C04: the binaries choose an encoder per problem and per --encoding value, and a wrong choice may
+            // only show in the certificate of a fraction of a percent of the queries: many more frameworks,
+            // every argument)
+            // (a process costs about 50 ms here: 20 frameworks per family are 12 000 runs at the quick tier)
+            let cli_cases = if prop == Prop::C04 { ctx.tier.pick(20, 300) } else { ctx.tier.pick(12, 150) };
             let through_cli = prop != Prop::C07
-                && ((matches!(family, "union" | "lattice" | "er") && i < ctx.tier.pick(12, 150))
+                && ((matches!(family, "union" | "lattice" | "er") && i < cli_cases)
                     || (family == "all3" && i % ctx.tier.pick(43, 5) == 2))
                 && case.abs.n >= 1
                 && case.abs.n <= 7;
